@@ -97,6 +97,30 @@ def p_c14(facts, rep, tier):
     rep.trust("rustc MIR (nightly, mir-opt-level=0)", "rules/errflow.py idiom tables", "rules/strands.py channel identity")
 
 
+def p_c18(facts, rep, tier):
+    import panicfree
+
+    rep.explanation = (
+        "C18 (site inventory): every MIR panic site (bounds/overflow/div asserts, unwrap/expect, Index impls incl. BitSlice, "
+        "diverging calls) in the functions reachable inside nomt_core from the 11 verifier entry points has a disposition: guarded "
+        "(machine-checked: dominated by the pass edge of a branch whose other edge returns the named error), invariant (safe under an "
+        "invariant of a private-field type whose constructors / field stores are enumerated and checked), or reviewed (frozen reason). "
+        "Any new or edited site is a violation. Hasher implementations are opaque and assumed total. Termination is not decided; the "
+        "adequacy of guards and reviewed reasons rests on reading."
+    )
+    reach, inv, counts = panicfree.run(facts, rep)
+    rep.floor("verifier entry points", len(panicfree.ENTRY), 11)
+    rep.floor("reachable functions", len(reach), 60)
+    rep.floor("panic sites", len(inv), 95)
+    rep.assume(
+        "H: NodeHasher implementations are total and collision resistant (two reviewed sites rest on domain separation of node kinds)",
+        "overflow assertions are live in shipped builds (the workspace sets debug-assertions = true in release)",
+        "reviewed sites rest on the written reason in rules/panic_sites.py; they are frozen by key (function, kind, expression)",
+        "termination (loops, the verify_range recursion) is not decided",
+    )
+    rep.trust("rustc MIR (nightly, mir-opt-level=0)", "rules/panic_sites.py dispositions", "may-panic API table in rules/panicfree.py")
+
+
 _CTX = {}
 
 
@@ -205,6 +229,7 @@ PROPS = {
     "C12": p_c12,
     "C14": p_c14,
     "C17": p_c17,
+    "C18": p_c18,
 }
 
 
